@@ -80,6 +80,23 @@ def work(item):
                 acc.inconclusive(f"{topo.name} {tag}: encoder validation failed at {nm}[{i}]")
                 return acc.done()
     acc.d["validated"] += 1
+    # plain-execution companion: whole numbers in integer-dtype state arrays (NumPy) vs the compiled function at the same numbers
+    envi = {k: (float(round(v)) if (k.startswith("rho_") or k.startswith("v_")) else v) for k, v in numrun.sample_env(topo, rng).items()}
+    envin = dict(envi)
+    if numeric:
+        envin.update({k: float(v) for k, v in numeric.items()})
+    ni, ei = numrun.numpy_float(topo, envin, style, int_states=True)
+    if ei is None:
+        ci = dict(cas_numeric(F, ins, envi, numeric))
+        acc.d["extra"]["int_dtype_companions"] = acc.d["extra"].get("int_dtype_companions", 0) + 1
+        done_ = False
+        for (nm, vals), (enm, slots) in zip(named, outs):
+            for k, slot in enumerate(slots):
+                if slot[0] == "next" and not done_ and not numrun.close(ni[(slot[1], slot[2])][slot[3]], ci[nm][k], 1e-7, 1e-9):
+                    done_ = True
+                    acc.d["violations"].append({"key": f"intdtype:{topo.name}:{tag}", "group": f"intdtype:{topo.name}",
+                                                "what": f"{topo.describe()} | NumPy step with integer-dtype state arrays gives {slot[2]}_{slot[1]}[{slot[3]}] = {ni[(slot[1], slot[2])][slot[3]]!r}, compiled {symtype} function {ci[nm][k]!r}",
+                                                "replay": {"property": PID, "kind": "exec", "topo": topo.to_json(), "style": style, "encoding": "numpy[int]", "msg": "int dtype differs", "env": envi}})
     for p in paths:
         acc.d["encodings"] += 1
         acc.d["paths"] += 1
